@@ -159,10 +159,17 @@ Print Assumptions presentation_rounding_error.
                   (number of tax combos of the row) x (bound of the row + 1)  +  number of combos
      b_inc d    = b_cats + 1 when prices include a tax, else 0
      b_total d  = b_total1 + b_inc;  b_tax d = 2 x b_cats;  b_twt d = b_total + b_tax + 1;
-     b_payable d = b_twt + 1
-   and every presented total is within  budget x eps + 1/2 minor unit  of the exact value; the
-   half unit is the presentation rounding.  "Ordinary-sized" = b_payable d < 100 (e.g. up to 9
-   single-rate taxed lines without rows: b_payable = 10 N + 5; untaxed: N + 5, up to 94 lines). *)
+     b_payable d = b_twt + 1;  b_discount d = #discounts x b_drow;  b_charge d = #charges x b_drow;
+     b_advances d = #advances x (b_twt + 1);  b_due d = b_payable + b_advances + 1
+   and every presented total (sum, discount, charge, total, tax, total with tax, payable, advances,
+   due) is within  budget x eps + 1/2 minor unit  of the exact value; the half unit is the
+   presentation rounding.  obound P o o': both absent, or both present and P holds of the distance.
+   "Ordinary-sized" = b_due d < 100, the largest budget (e.g. up to 9 single-rate taxed lines
+   without rows and advances: b_due = 10 N + 6; untaxed: N + 6, up to 93 lines).
+   The tax budget assumes the worst admitted rates (100% plus a 100% surcharge), so it is
+   conservative for real rates.  Advances by percentage: at most 100% either way.
+   Not covered by the bound (only by calc_refines_ideal): the presented figures of the individual
+   lines, discount / charge / advance rows, due-date amounts, category and group amounts. *)
 Theorem precise_error_bound_budget d t : simple_doc d -> calculate d = Totals t ->
   exists y, exact d = Some y /\
     let c := d_c d in
@@ -171,17 +178,26 @@ Theorem precise_error_bound_budget d t : simple_doc d -> calculate d = Totals t 
     Qabs (toQ (t_total t) - i_total y) <= b_total d * eps c + P /\
     Qabs (toQ (t_tax t) - i_tax y) <= b_tax d * eps c + P /\
     Qabs (toQ (t_twt t) - i_twt y) <= b_twt d * eps c + P /\
-    Qabs (toQ (t_payable t) - i_payable y) <= b_payable d * eps c + P.
+    Qabs (toQ (t_payable t) - i_payable y) <= b_payable d * eps c + P /\
+    obound (fun e => e <= b_discount d * eps c + P) (t_discount t) (i_discount y) /\
+    obound (fun e => e <= b_charge d * eps c + P) (t_charge t) (i_charge y) /\
+    obound (fun e => e <= b_advances d * eps c + P) (t_advances t) (i_advances y) /\
+    obound (fun e => e <= b_due d * eps c + P) (t_due t) (i_due y).
 Proof. exact (IdealBoundProofs.precise_error_bound_budget d t). Qed.
 Print Assumptions precise_error_bound_budget.
 
-Theorem precise_error_bound d t : simple_doc d -> b_payable d < 100 -> calculate d = Totals t ->
+Theorem precise_error_bound d t : simple_doc d -> b_due d < 100 -> calculate d = Totals t ->
   exists y, exact d = Some y /\
-    Qabs (toQ (t_sum t) - i_sum y) < unitQ (d_c d) /\
-    Qabs (toQ (t_total t) - i_total y) < unitQ (d_c d) /\
-    Qabs (toQ (t_tax t) - i_tax y) < unitQ (d_c d) /\
-    Qabs (toQ (t_twt t) - i_twt y) < unitQ (d_c d) /\
-    Qabs (toQ (t_payable t) - i_payable y) < unitQ (d_c d).
+    let u := unitQ (d_c d) in
+    Qabs (toQ (t_sum t) - i_sum y) < u /\
+    Qabs (toQ (t_total t) - i_total y) < u /\
+    Qabs (toQ (t_tax t) - i_tax y) < u /\
+    Qabs (toQ (t_twt t) - i_twt y) < u /\
+    Qabs (toQ (t_payable t) - i_payable y) < u /\
+    obound (fun e => e < u) (t_discount t) (i_discount y) /\
+    obound (fun e => e < u) (t_charge t) (i_charge y) /\
+    obound (fun e => e < u) (t_advances t) (i_advances y) /\
+    obound (fun e => e < u) (t_due t) (i_due y).
 Proof. exact (IdealBoundProofs.precise_error_bound d t). Qed.
 Print Assumptions precise_error_bound.
 
@@ -194,12 +210,17 @@ Theorem ideal_close_to_exact d x : simple_doc d -> ideal d = Some x ->
     cl (b_total d * eps c + P) (i_total x) (i_total y) /\
     cl (b_tax d * eps c + P) (i_tax x) (i_tax y) /\
     cl (b_twt d * eps c + P) (i_twt x) (i_twt y) /\
-    cl (b_payable d * eps c + P) (i_payable x) (i_payable y).
+    cl (b_payable d * eps c + P) (i_payable x) (i_payable y) /\
+    ocl (b_discount d * eps c + P) (i_discount x) (i_discount y) /\
+    ocl (b_charge d * eps c + P) (i_charge x) (i_charge y) /\
+    ocl (b_advances d * eps c + P) (i_advances x) (i_advances y) /\
+    ocl (b_due d * eps c + P) (i_due x) (i_due y).
 Proof. exact (spec_close d x). Qed.
 Print Assumptions ideal_close_to_exact.
 
 (* a line with a 10% discount and a fixed charge, a second line, a 5% document discount, a fixed
-   document charge, 21% tax on everything, a 50% advance: budget 76 < 100 *)
+   document charge, 21% tax on everything: largest budget b_due = 77 < 100 (an advance would add
+   b_twt + 1 = 76 to the budget of the amount due) *)
 Definition c01_simple_doc : doc :=
   let vat := mkCombo [Byte.x56] [] [] (Some (mkA 21 2)) None false [] in
   mkDoc 2 false [] 1
@@ -207,10 +228,10 @@ Definition c01_simple_doc : doc :=
            [mkLdc (mkA 0 0) (Some (mkA 10 2)) None None None] [mkLdc (mkA 125 3) None None None None] [vat];
     mkLine (mkA 7 0) (mkItem (mkA 1005 3) None []) [] [] [] [vat]]
    [mkDdc (mkA 0 0) (Some (mkA 5 2)) None [vat]] [mkDdc (mkA 100 2) None None []] []
-   [mkProw (mkA 0 0) (Some (mkA 50 2))] [] None.
+   [] [] None.
 
 Example precise_error_bound_applies :
-  simple_doc c01_simple_doc /\ b_payable c01_simple_doc == 76 /\ b_payable c01_simple_doc < 100 /\
+  simple_doc c01_simple_doc /\ b_payable c01_simple_doc == 76 /\ b_due c01_simple_doc < 100 /\
   exists t y, calculate c01_simple_doc = Totals t /\ exact c01_simple_doc = Some y /\
     t_total t = mkA 866 2 /\ i_total y == 86569145 # 10000000 /\
     t_twt t = mkA 1026 2 /\ i_twt y == 10264866545 # 1000000000.
@@ -224,7 +245,7 @@ Proof.
 Qed.
 
 (* the earlier result for PLAIN documents (no discounts, charges, taxes), kept because its size
-   limit is slightly better there (99 lines instead of 94): *)
+   limit is slightly better there (99 lines instead of 93): *)
 Theorem precise_sum_error_bound_partial d : plain_doc d -> (length (d_lines d) <= 99)%nat ->
   exists t, calculate d = Totals t /\
     t_total t = t_sum t /\ t_twt t = t_sum t /\ t_payable t = t_sum t /\
